@@ -76,6 +76,24 @@ pub fn exec(case: &Value) -> Value {
             };
             o.insert("res".into(), result_json(r));
         }
+        "pair" => {
+            // the same samples under a header whose maxval is e.max (not necessarily 255; samples may
+            // exceed it), once as text and once as binary: the two decodes are recorded side by side
+            let (w, h, max) = (gu(case, "w"), gu(case, "h"), gu(case, "max"));
+            let rgbf = gi(case, "rgb") == 1;
+            let pix: Vec<u8> = case["pix"].as_array().unwrap().iter().map(|b| b.as_u64().unwrap() as u8).collect();
+            let head = |fmt: u8| format!("P{} {} {} {}\n", fmt, w, h, max).into_bytes();
+            let mut text = head(if rgbf { 3 } else { 2 });
+            for v in &pix {
+                text.extend(format!("{} ", v).bytes());
+            }
+            let mut bin = head(if rgbf { 6 } else { 5 });
+            bin.extend(&pix);
+            o.insert("rt".into(), result_json(guard(|| parse_pnm(text.iter().copied()))));
+            o.insert("rb".into(), result_json(guard(|| parse_pnm(bin.iter().copied()))));
+            o.insert("bytes".into(), json!([]));
+            o.insert("res".into(), json!(["pair", 0]));
+        }
         "rt" => {
             // a bw x bh backing buffer, the view (ox, oy, w, h) of it (or the
             // whole buffer, owned, when "owned" = 1)
@@ -254,6 +272,15 @@ pub fn gen(args: &Args, out: &mut dyn Write) {
         for via in ["parse_pnm", "read_pnm", "read_trickle"] {
             emit(out, json!({"op": "parse", "via": via, "bytes": s}));
         }
+    }
+    // the same samples as text and as binary under headers with other maxvals (samples within and beyond it)
+    for i in 0..(if thorough { 3000 } else { 150 }) {
+        let (w, h) = (rng.range(1, 5) as u32, rng.range(1, 4) as u32);
+        let rgbf = i % 2;
+        let max = *rng.pick(&[1u32, 15, 100, 254, 255, 255]);
+        let n = (w * h) as usize * if rgbf == 1 { 3 } else { 1 };
+        let pix: Vec<u32> = (0..n).map(|_| if rng.chance(1, 3) { rng.below(256) as u32 } else { rng.below(max as u64 + 1) as u32 }).collect();
+        emit(out, json!({"op": "pair", "w": w, "h": h, "max": max, "rgb": rgbf, "pix": pix}));
     }
     // sizes around 2^8 and 2^16 in one direction (binary formats, patterned data)
     for (fmt, w, h) in [(5u8, 256u32, 1u32), (6, 256, 1), (5, 257, 1), (6, 1, 257), (5, 255, 2), (6, 300, 3), (5, 4096, 1), (5, 65536, 1), (5, 65537, 1), (6, 1, 65537), (5, 70000, 3)] {
